@@ -249,7 +249,7 @@ func TestC11(t *testing.T) {
 	col := evd.New("C11", cfg)
 	defer col.Flush()
 	n := cfg.N(480, 16000)
-	var freed, fullTotal, sendsTotal, lapses int64
+	var freed, fullTotal, sendsTotal, lapses, promptDone int64
 	for i := 0; i < n; i++ {
 		seed := cfg.CaseSeed("C11", i)
 		if !cfg.Want(i, seed) {
@@ -296,6 +296,7 @@ func TestC11(t *testing.T) {
 			// purely by the passage of time (step "lease-lapse")
 			directed := i%5 == 4
 			large := !directed && i%7 == 6
+			prompt := !directed && !large && i%3 == 1
 			if large {
 				sizes = []int{10}
 				maxMsgs, maxBytes = []int64{150, 1000, 0, 120}[r.Intn(4)], 0
@@ -381,6 +382,42 @@ func TestC11(t *testing.T) {
 			fs := rig.NewFakeStream(e.Actor("stream"))
 			fs.OnSend = led.onSend
 			fs.SendDelay = func() time.Duration { return time.Duration(lr.Intn(3)) * time.Millisecond }
+			// a prompt client: it acknowledges (or gives back) a message the moment it
+			// has it, which can be before the server's Send call has returned - the
+			// stream's bookkeeping for a batch must be in place before the batch leaves
+			var promptAcks []string
+			if prompt {
+				fs.SendLag = func() time.Duration { return time.Duration(1+lr.Intn(3)) * time.Millisecond }
+				fs.OnSend = func(b rig.SentBatch) {
+					led.onSend(b)
+					req := &pubsubpb.StreamingPullRequest{}
+					led.mu.Lock()
+					for _, rm := range b.Msgs {
+						m := led.byAck[rm.AckId]
+						if m == nil {
+							continue
+						}
+						switch lr.Intn(4) {
+						case 0, 1:
+							m.state = "acking"
+							promptAcks = append(promptAcks, rm.AckId)
+							req.AckIds = append(req.AckIds, rm.AckId)
+							promptDone++
+						case 2:
+							if m.sends < 3 {
+								m.state = "due"
+								req.ModifyDeadlineAckIds = append(req.ModifyDeadlineAckIds, rm.AckId)
+								req.ModifyDeadlineSeconds = append(req.ModifyDeadlineSeconds, 0)
+								promptDone++
+							}
+						}
+					}
+					led.mu.Unlock()
+					if len(req.AckIds)+len(req.ModifyDeadlineAckIds) > 0 {
+						go fs.Push(req)
+					}
+				}
+			}
 			hdone := make(chan struct{})
 			var herr error
 			go func() { herr = e.Sub.StreamingPull(fs); close(hdone) }()
@@ -408,6 +445,14 @@ func TestC11(t *testing.T) {
 					}
 				}
 				rig.Quiesce()
+				led.mu.Lock()
+				for _, id := range promptAcks {
+					if m := led.byAck[id]; m != nil && m.state == "acking" && m.ackID == id {
+						m.state = "acked"
+					}
+				}
+				promptAcks = nil
+				led.mu.Unlock()
 			}
 			settle()
 			checkStall := func(after string) {
@@ -613,4 +658,5 @@ func TestC11(t *testing.T) {
 	col.Add("ev_sends_reaching_the_message_limit", fullTotal)
 	col.Add("ev_capacity_freeing_actions_checked_for_stall", freed)
 	col.Add("ev_lease_lapses_checked_for_stall", lapses)
+	col.Add("ev_acks_and_nacks_sent_before_send_returned", promptDone)
 }
